@@ -502,6 +502,10 @@ func (c *Conn) Parse(data []byte) (retErr error) {
 					if fin {
 						message = c.message
 						c.message = nil
+						if message == nil {
+							// a message without payload is a message too.
+							message = allocator.Malloc(0)
+						}
 						if c.compress {
 							var pb *[]byte
 							var rc io.ReadCloser
